@@ -103,6 +103,7 @@ type Hold struct {
 // World is a store plus reference model plus scheduler.
 type World struct {
 	afterCompositeCall func()
+	pendingFM          *PendingFM
 	T                  Fataler
 	Cfg                Config
 	St                 *Store
@@ -698,6 +699,7 @@ type ObjInst struct {
 // FindMissing performs an existence check and verifies "present =>
 // some upload of that key completed". It returns present[i].
 func (w *World) FindMissing(items []ObjInst) ([]bool, error) {
+	w.FinishPendingFM()
 	sb := digest.NewSetBuilder(0)
 	for _, it := range items {
 		sb.Add(it.Obj.Digest(it.Instance))
@@ -741,6 +743,128 @@ func (w *World) evalFindMissing(items []ObjInst, missing digest.Set, err error, 
 	}
 	w.logf("findmissing ->%s", sbuf.String())
 	return present, nil
+}
+
+// PendingFM is an existence check running as a scheduled thread that
+// parks right before each refresh copy (the unlocked copy phase of
+// FindMissing's second scan; the store's refresh lock is held).
+type PendingFM struct {
+	Items        []ObjInst
+	Thread       *sim.Thread
+	Done         bool
+	Present      []bool
+	Err          error
+	Parks        int
+	AllocsAtPark []int // NewBlock calls when the thread parked (right after the allocation of each refresh copy)
+	AllocsStart  int
+	failsBefore  int
+	env          bool
+	targets      []*LiveBlock
+	puts         map[*LiveBlock]int32
+	finish       func(interface{}) (digest.Set, error)
+}
+
+type fmThreadMarker struct{ p *PendingFM }
+
+// StartFindMissing starts an existence check as a thread and runs it to
+// its first refresh copy (or to completion).
+func (w *World) StartFindMissing(items []ObjInst) *PendingFM {
+	w.FinishPendingFM()
+	sb := digest.NewSetBuilder(0)
+	for _, it := range items {
+		sb.Add(it.Obj.Digest(it.Instance))
+	}
+	set := sb.Build()
+	p := &PendingFM{Items: items, AllocsStart: w.St.Alloc.NewBlockCalls, failsBefore: w.St.Alloc.NewBlockFailures, puts: map[*LiveBlock]int32{}}
+	for _, lb := range w.AllLive {
+		p.puts[lb] = lb.Info.Puts
+	}
+	type res struct {
+		missing digest.Set
+		err     error
+	}
+	w.St.Alloc.CopyGate = func() {
+		if th := w.Sched.Current(); th != nil {
+			if _, ok := th.Data.(fmThreadMarker); ok {
+				w.Sched.Gate("refreshcopy", nil)
+			}
+		}
+	}
+	p.Thread = w.Sched.Spawn("FM", func() interface{} {
+		m, err := w.St.BA.FindMissing(w.Ctx, set)
+		return res{m, err}
+	})
+	p.Thread.Data = fmThreadMarker{p}
+	w.pendingFM = p
+	w.logf("findmissing(thread, %d items) start", len(items))
+	w.stepFM(p, func(r interface{}) (digest.Set, error) { x := r.(res); return x.missing, x.err })
+	p.finish = func(r interface{}) (digest.Set, error) { x := r.(res); return x.missing, x.err }
+	return p
+}
+
+// StepFindMissing lets a parked existence check perform one refresh copy.
+func (w *World) StepFindMissing(p *PendingFM) {
+	if p.Done {
+		return
+	}
+	w.stepFM(p, p.finish)
+}
+
+func (w *World) stepFM(p *PendingFM, decode func(interface{}) (digest.Set, error)) {
+	ev := p.Thread.Step(nil)
+	// A block that received an allocation is the target of a refresh copy
+	// (only this thread ran).
+	for _, lb := range w.AllLive {
+		if lb.Info.Puts != p.puts[lb] {
+			p.targets = append(p.targets, lb)
+		}
+		p.puts[lb] = lb.Info.Puts
+	}
+	p.env = p.env || w.Closed || w.deviceFaultsArmed() || w.Corrupt
+	switch ev.Kind {
+	case "gate":
+		p.Parks++
+		p.AllocsAtPark = append(p.AllocsAtPark, w.St.Alloc.NewBlockCalls)
+		w.logf("findmissing(thread) parked before refresh copy #%d", p.Parks)
+		return
+	case "panic":
+		w.fatalf("FindMissing panicked: %v\n%s", ev.Panic, ev.Stack)
+	}
+	p.Done = true
+	if w.pendingFM == p {
+		w.pendingFM = nil
+	}
+	missing, err := decode(ev.Result)
+	if err != nil && status.Code(err) == codes.Internal {
+		for _, lb := range p.targets {
+			if lb.Popped || lb.Quarantined {
+				// Operations interleaved with the refresh copy rotated its
+				// target block away: like an upload whose block was
+				// rotated away, the call fails.
+				w.Flags["findmissing_refresh_target_rotated_away"]++
+				w.logf("findmissing(thread) -> %v (refresh target rotated away)", err)
+				p.Err = err
+				return
+			}
+		}
+	}
+	p.Present, p.Err = w.evalFindMissing(p.Items, missing, err, p.failsBefore, p.env)
+}
+
+// FinishPendingFM runs a parked existence check to completion. Every
+// operation that needs the store's refresh lock calls it first.
+func (w *World) FinishPendingFM() {
+	for w.pendingFM != nil && !w.pendingFM.Done {
+		w.StepFindMissing(w.pendingFM)
+	}
+}
+
+// PendingFindMissing returns the parked existence check, if any.
+func (w *World) PendingFindMissing() *PendingFM {
+	if w.pendingFM != nil && !w.pendingFM.Done {
+		return w.pendingFM
+	}
+	return nil
 }
 
 // OverlappedFindMissing runs FindMissing(items) as a second client whose
@@ -900,6 +1024,7 @@ func (w *World) GetFromComposite(parent *Obj, instance string, cuts []int, want 
 // GetFromCompositeDuring is GetFromComposite with `during` executed while
 // the slicer runs, i.e. in the unlocked slicing phase of the call.
 func (w *World) GetFromCompositeDuring(parent *Obj, instance string, cuts []int, want int, during func()) ReadResult {
+	w.FinishPendingFM()
 	// The child digest must be known up front: derive it from the
 	// parent content the model knows.
 	bounds := append(append([]int{}, cuts...), len(parent.Data))
